@@ -205,21 +205,33 @@ def prove(pid: str, timeout=1500, jobs=16):
     if not ok:
         res["errors"].append(f"translator failed (fail-closed): {msg}")
     ensure_makefile()
-    props = os.path.join(COQ, "Props", f"{pid}.v")
-    with open(props) as f:
-        ptxt = f.read()
+    import glob as _glob
+    pfiles = sorted(_glob.glob(os.path.join(COQ, "Props", f"{pid}.v")) + _glob.glob(os.path.join(COQ, "Props", f"{pid}[a-z].v")))
+    ptxt = ""
+    for pf in pfiles:
+        with open(pf) as f:
+            ptxt += f.read() + "\n"
     thms = re.findall(r"^\s*Theorem\s+([A-Za-z_][\w']*)", ptxt, re.M)
     res["theorems"] = thms
     res["obligations"] = len(thms)
     if not ok:
         return res
-    # force re-check of the property file itself so that Print Assumptions is re-emitted
-    for ext in (".vo", ".vok", ".vos", ".glob"):
-        p = os.path.join(COQ, "Props", pid + ext)
-        if os.path.exists(p):
-            os.remove(p)
+    # force re-check of the property files themselves so that Print Assumptions is re-emitted
+    targets = []
+    for pf in pfiles:
+        stem = os.path.splitext(os.path.basename(pf))[0]
+        targets.append(f"Props/{stem}.vo")
+        for ext in (".vo", ".vok", ".vos", ".glob"):
+            p_ = os.path.join(COQ, "Props", stem + ext)
+            if os.path.exists(p_):
+                os.remove(p_)
     t0 = time.time()
-    rc, out = sh(f"timeout {timeout} make -j{jobs} Props/{pid}.vo", cwd=COQ, timeout=timeout + 60)
+    # one make per file, in order, so that the Print Assumptions blocks come out in the order of the theorems
+    rc, out = 0, ""
+    for tg in targets:
+        rc1, out1 = sh(f"timeout {timeout} make -j{jobs} {tg}", cwd=COQ, timeout=timeout + 60)
+        out += out1
+        rc = rc or rc1
     res["build_s"] = round(time.time() - t0, 1)
     res["build_tail"] = out[-3000:]
     if rc != 0:
